@@ -1264,9 +1264,36 @@ func c05ShortRecord(k, pre, post int, buf []uint64) string {
 	return c05ShrinkExplicit(buf, prop)
 }
 
+// a value drawn through a Filter that refuses one number (`hole`), followed by a slice: when the minimizer of the value's
+// block proposes `hole`, the attempt is rejected and discarded, and the words of the slice slide into the value's place —
+// the block now holds less than what the minimizer believes to be its best value.  The property fails for two small
+// values (`lo1 < lo2 < hole`) when the first draw is small, and for every value above `hole` that is followed by a
+// non-empty slice.
+func c05StaleBest(hole, lo1, lo2 uint8, buf []uint64) string {
+	prop := func(t *rapid.T) {
+		a := rapid.Uint8().Draw(t, "a")
+		x := rapid.Uint8().Filter(func(v uint8) bool { return v != hole }).Draw(t, "x")
+		rest := rapid.SliceOf(rapid.Uint8()).Draw(t, "rest")
+		if ((x == lo1 || x == lo2) && a < 5) || (x > hole && len(rest) >= 1) {
+			t.Fatalf("bad combination")
+		}
+	}
+	return c05ShrinkExplicit(buf, prop)
+}
+
 // minimize the failure of prop on buf with the real `shrink`: no crash, not larger, the result replays to the reported
 // failure and is its own recording
-func c05ShrinkExplicit(buf []uint64, prop func(*rapid.T)) string {
+func c05ShrinkExplicit(buf []uint64, prop0 func(*rapid.T)) string {
+	// every candidate the shrinker runs, in order: an accepted one is run twice in a row (the second time recording).
+	// (The first run goes through the same wrapper: the traceback of a failure names its callers.)
+	var cands [][]uint64
+	watching := false
+	prop := func(t *rapid.T) {
+		if ws, ok := rapid.VerifTWords(t); ok && watching {
+			cands = append(cands, ws)
+		}
+		prop0(t)
+	}
 	s := rapid.VerifBufStream(buf, true)
 	var e rapid.VerifErr
 	if p := runTB(func() { e = rapid.VerifCheckOnce(rapid.VerifNewT(newRecTB("efc"), s, false), prop) }); p != nil {
@@ -1277,11 +1304,29 @@ func c05ShrinkExplicit(buf []uint64, prop func(*rapid.T)) string {
 	}
 	var res []uint64
 	var e2 rapid.VerifErr
+	watching = true
 	if p := runTB(func() { res, e2 = rapid.VerifShrink(newRecTB("efc"), time.Now().Add(time.Minute), s.Rec(), e, prop) }); p != nil {
 		return fmt.Sprintf("shrink crashed: %v", p)
 	}
+	watching = false
 	if rapid.VerifCompareData(res, s.Rec().Data) > 0 {
 		return fmt.Sprintf("minimized [%s] is larger than the recording it started from [%s]", joinU64(res), joinU64(s.Rec().Data))
+	}
+	// the test case the shrinker holds after accepting a candidate is the pruned recording of the candidate's run
+	held := func(cand []uint64) []uint64 {
+		sc := rapid.VerifBufStream(cand, true)
+		runTB(func() { rapid.VerifCheckOnce(rapid.VerifNewT(newRecTB("efc"), sc, false), prop) })
+		return rapid.VerifPrune(sc.Rec()).Data
+	}
+	prev := rapid.VerifPrune(s.Rec()).Data
+	for k := 0; k+1 < len(cands); k++ {
+		if equalWords(cands[k], cands[k+1]) {
+			if rapid.VerifCompareData(cands[k], prev) >= 0 {
+				return fmt.Sprintf("accepted candidate [%s] is not smaller than the test case before it [%s]", joinU64(cands[k]), joinU64(prev))
+			}
+			prev = held(cands[k])
+			k++
+		}
 	}
 	s3 := rapid.VerifBufStream(res, true)
 	var e3 rapid.VerifErr
@@ -1970,6 +2015,24 @@ func init() {
 				m.violate(violation{"C05", "efc", what, map[string]string{"words": joinU64(buf)}})
 			}
 		}
+		// a Filter with one hole in front of a slice: proposals of the block minimizer that fall into the hole
+		const hb = uint64(6305039478318694) // "8 bits" as a bias block, "continue" as a coin
+		for k := 0; k < 8*scale; k++ {
+			hole, lo1 := uint8(36), uint8(11)
+			if k > 0 {
+				hole = uint8(2 * (8 + r.intn(50)))
+				lo1 = uint8(5 + r.intn(int(hole)/2-5))
+			}
+			lo2 := hole / 2
+			for _, x0 := range []uint64{2 * uint64(hole), uint64(hole) + 1 + uint64(r.intn(100))} {
+				buf := []uint64{hb, 150, hb, x0 & 255, hb, uint64(lo1), 1, 0}
+				m.tag("stale-best")
+				m.eval(fmt.Sprint("stale", hole, lo1, buf), true)
+				if what := c05StaleBest(hole, lo1, lo2, buf); what != "" {
+					m.violate(violation{"C05", "stale", what, map[string]string{"words": joinU64(buf), "hole": fmt.Sprint(hole), "lo1": fmt.Sprint(lo1), "lo2": fmt.Sprint(lo2)}})
+				}
+			}
+		}
 		// seven-word standalone groups that are not floats and get shorter when the float pass lowers one of their words
 		for _, k := range []int{4, 5, 6} {
 			for _, pre := range []int{0, 2} {
@@ -1995,6 +2058,10 @@ func init() {
 	replayers["gotest"] = func(v violation, tmp string) (bool, string) {
 		what, ran := c09GoTest(tmp)
 		return ran && what != "", what
+	}
+	replayers["stale"] = func(v violation, tmp string) (bool, string) {
+		what := c05StaleBest(uint8(atoiS(v.Params["hole"])), uint8(atoiS(v.Params["lo1"])), uint8(atoiS(v.Params["lo2"])), parseWordsGo(v.Params["words"]))
+		return what != "", what
 	}
 	replayers["shortrec"] = func(v violation, tmp string) (bool, string) {
 		what := c05ShortRecord(atoiS(v.Params["k"]), atoiS(v.Params["pre"]), atoiS(v.Params["post"]), parseWordsGo(v.Params["words"]))
